@@ -214,3 +214,27 @@ def m_value_get(it, name, a):
 @model(r'<(serde_json::)?Value as Clone>::clone', r'<(serde_json::)?Map<.*> as Clone>::clone')
 def m_value_clone(it, name, a):
     return clone_val(it.deref(a[0]))
+
+
+@model(r'(serde_json::)?(value::)?to_value(::<.*>)?')
+def m_to_value(it, name, a):
+    return ok(serialize_value(it, a[0]))
+
+
+@model(r'<(serde_json::)?Value as From<.*>>::from', r'<.* as Into<(serde_json::)?Value>>::into')
+def m_value_from(it, name, a):
+    v = a[0]
+    if isinstance(v, Adt) and v.ty == 'Value':
+        return v
+    if isinstance(v, MapV):
+        return Adt('Value', 'Object', [v])
+    return serialize_value(it, v)
+
+
+@model(r'<(serde_json::)?Value as (Display|Debug)>::fmt', r'<(serde_json::)?Value as ToString>::to_string')
+def m_value_display(it, name, a):
+    import json as _json
+    try:
+        return _json.dumps(to_python(it.deref(a[0])), default=str)
+    except Exception:
+        return '<json value>'
